@@ -28,7 +28,7 @@
 (* the *chain as configured* (Chain, NearestFrom), independently of the    *)
 (* links the actions build.                                                *)
 (***************************************************************************)
-EXTENDS Integers, Sequences, FiniteSets, TLC
+EXTENDS Integers, Sequences, FiniteSets, TLC, UriPath
 CONSTANTS MaxN,             \* MaxN[fam]: longest chain enumerated for that family
           TraceTpl(_, _)    \* trace validation only: template i of recorded trace t (flags + scripts)
 NONE == 0
@@ -56,7 +56,7 @@ StdFlags(i) == LET ch == StdCh(i) IN
    p1 |-> IF StdInh(i) = "none" THEN NONE ELSE i - 1, p2 |-> IF StdInh(i) = "dyn" THEN cfg.N + 1 ELSE NONE]
 (* the body script of a family exercises the members that family varies *)
 StdBody(t, hp, hn, mode, fam) ==
-  LET wf == fam \in {"dispatch", "dyn", "entry"}  wa == fam \in {"attrs", "entry"} IN
+  LET wf == fam \in {"dispatch", "dyn", "entry", "dirs"}  wa == fam \in {"attrs", "entry"} IN
   <<Op("open", "", "")>>
   \o If(wf, <<Op("call", "self", "f")>>)
   \o If(wf /\ hn, <<Op("call", "next", "f")>>)
@@ -90,10 +90,34 @@ ScriptOf(i, kind) ==
        CASE kind = "body" -> t.body [] kind = "f" -> t.fs [] kind = "b" -> t.bs [] kind = "c" -> t.cs [] kind = "probe" -> t.ps
   ELSE StdScript(i, kind)
 FullTpl(i) == T(i) @@ [body |-> ScriptOf(i, "body"), fs |-> ScriptOf(i, "f"), bs |-> ScriptOf(i, "b"), cs |-> ScriptOf(i, "c")]
-(* the inherit target of template i, evaluated as write_inherit's expression would be *)
-Target(i) == CASE T(i).inh = "none" -> NONE
+(* the template the author of i means to inherit from, as write_inherit's expression would choose it *)
+Written(i) == CASE T(i).inh = "none" -> NONE
                [] T(i).inh = "static" -> T(i).p1
                [] T(i).inh = "dyn" -> CASE cfg.sw = "p1" -> T(i).p1 [] cfg.sw = "p2" -> T(i).p2 [] cfg.sw = "none" -> NONE
+(* WHERE the templates live and HOW an inherit target is written (families "dirs" and trace; elsewhere everything is in  *)
+(* one directory and targets are absolute).  Template i is the file t<i> in directory DirOf(i); its <%inherit> (static or *)
+(* the value of the expression) is spelled "abs" (/dir/t), "rel" (relative to i's OWN directory: bare name, ../x/t, b/t)  *)
+(* or "dotrel" (the same with a leading ./).  The target that is actually inherited is found by the rule of UriPath.tla:    *)
+(* runtime._inherit_from -> _lookup_template(context, uri, calling_uri) with calling_uri = the uri of the template that     *)
+(* WRITES the <%inherit> (not of `self`, the leaf).                                                                         *)
+ChainDirs == << <<>>, <<"a", "b">>, <<"x">> >>
+UsesDirs == cfg.fam \in {"dirs", "trace"}
+DirOf(i) == IF IsTrace THEN TraceTpl(cfg.id, i).dir ELSE IF cfg.fam = "dirs" THEN ChainDirs[cfg.dirs[i]] ELSE <<>>
+SpellOf(i) == IF IsTrace THEN TraceTpl(cfg.id, i).spell ELSE IF cfg.fam = "dirs" THEN cfg.spell[i] ELSE "abs"
+TName(i) == "t" \o ToString(i)
+Path(i) == DirOf(i) \o <<TName(i)>>
+RECURSIVE CommonLen(_, _)
+CommonLen(x, y) == IF x = <<>> \/ y = <<>> \/ Head(x) # Head(y) THEN 0 ELSE 1 + CommonLen(Tail(x), Tail(y))
+RelSegs(from, to) == LET c == CommonLen(from, to) IN [k \in 1..(Len(from) - c) |-> ".."] \o SubSeq(to, c + 1, Len(to))
+SpelledPre(i, j) == CASE SpellOf(i) = "abs" -> DirOf(j) [] SpellOf(i) = "rel" -> RelSegs(DirOf(i), DirOf(j))
+                      [] SpellOf(i) = "dotrel" -> <<".">> \o RelSegs(DirOf(i), DirOf(j))
+SpelledTo(i, j) == [abs |-> SpellOf(i) = "abs", segs |-> SpelledPre(i, j) \o <<TName(j)>>]
+Resolved(i) ==
+  LET w == Written(i) IN
+  IF w = NONE THEN NONE
+  ELSE LET n == Norm(Compute(SpelledTo(i, w), Path(i))) IN
+       IF \E j \in Ids : Path(j) = n THEN CHOOSE j \in Ids : Path(j) = n ELSE NONE
+Target(i) == IF UsesDirs THEN Resolved(i) ELSE Written(i)
 
 Choices(fam) ==
   CASE fam = "dispatch" -> [f : BOOLEAN, a : {"none"}, b : {FALSE}, c : {"none"}]
@@ -103,8 +127,9 @@ Choices(fam) ==
     [] fam = "args" -> [f : {FALSE}, a : {"none"}, b : BOOLEAN, c : {"none"}]
     [] fam = "dyn" -> [f : BOOLEAN, a : {"none"}, b : BOOLEAN, c : {"none"}]
     [] fam = "entry" -> [f : BOOLEAN, a : {"none", "truthy"}, b : {FALSE}, c : {"none"}]
+    [] fam = "dirs" -> [f : {TRUE}, a : {"truthy"}, b : {FALSE}, c : {"none"}]
 Modes(fam) == CASE fam = "blocks" -> {"next", "self", "none"} [] fam = "args" -> {"next", "self"} [] OTHER -> {"next"}
-Families == {"dispatch", "attrs", "blocks", "args", "dyn", "entry"}
+Families == {"dispatch", "attrs", "blocks", "args", "dyn", "entry", "dirs"}
 (* The render REQUEST: made on template `top` of the chain as written (any level, not only N: the templates below *)
 (* `top` form its chain, the ones above are simply not part of this render), through entry point `entry`:        *)
 (*   "render"  Template.render / render_unicode / render_context: the body of the base-most ancestor runs;        *)
@@ -117,7 +142,16 @@ Configs ==
      {[fam |-> fam, N |-> N, ch |-> ch, mode |-> mode, k |-> ks[1], sw |-> ks[2], pa |-> (fam = "args"), top |-> en[1], entry |-> en[2]] :
         ks \in (IF fam = "dyn" THEN {z \in (1..N) \X {"p1", "p2", "none"} : ~(z[1] = 1 /\ z[2] = "p1")} ELSE {<<0, "p1">>}),
         en \in Entries(fam, N)}
-     : ch \in [1..N -> Choices(fam)], mode \in Modes(fam)} : N \in 1..MaxN[fam]} : fam \in Families}
+     : ch \in [1..N -> Choices(fam)], mode \in Modes(fam)} : N \in 1..MaxN[fam]} : fam \in Families \ {"dirs"}}
+  (* family "dirs": every level in a directory of its own choice (the alternative base at the root), every inherit target    *)
+  (* spelled abs / rel / dotrel, static or (level 2) as the value of an expression                                            *)
+  \cup UNION {
+     {[fam |-> "dirs", N |-> N, ch |-> [i \in 1..N |-> [f |-> TRUE, a |-> "truthy", b |-> FALSE, c |-> "none"]], mode |-> "next",
+       k |-> k, sw |-> "p1", pa |-> FALSE, top |-> N, entry |-> "render",
+       dirs |-> [i \in 1..(N + 1) |-> IF i = N + 1 THEN 1 ELSE d[i]],
+       spell |-> [i \in 1..(N + 1) |-> IF i = N + 1 THEN "abs" ELSE sp[i]]] :
+        d \in [1..N -> 1..Len(ChainDirs)], sp \in {q \in [1..N -> {"abs", "rel", "dotrel"}] : q[1] = "abs"}, k \in {0, 2}}
+     : N \in 2..MaxN["dirs"]}
 
 Blank == [self |-> NONE, local |-> NONE, next |-> NONE, parent |-> NONE]
 InitWith(c) ==
@@ -269,6 +303,9 @@ AttrValues_ ==
   \A k \in 1..Len(out) : (out[k].k = "attr" /\ InChain(out[k].l)) =>
      LET r == AttrAnswer(out[k].n, out[k].l) IN
      out[k + 1] = (IF r = NONE THEN Tok("ERR", "", 0, 0) ELSE Tok("val", "", r, IF T(r).a = "truthy" THEN 1 ELSE 0))
+(* the chain is the one the AUTHOR wrote: each target, resolved against the uri of the template that writes it, is the   *)
+(* template it was meant to be (so Chain, built from Target, is the written chain whatever the directories and spellings) *)
+InheritRelativeToWriter_ == UsesDirs => \A i \in Ids : Resolved(i) = Written(i)
 BaseBodyRuns_ ==
   /\ (Linked /\ out # <<>> /\ cfg.entry = "render") => out[1] = Tok("open", "", Chain[1], -1)
   /\ cfg.entry = "def" => /\ \A k \in 1..Len(out) : out[k].k # "open"                       \* get_def: no body runs at all,
@@ -306,6 +343,7 @@ SelfMostDerived == AtEnd(SelfMostDerived_)
 NextParentAdjacent == AtEnd(NextParentAdjacent_)
 LocalIsOwn == AtEnd(LocalIsOwn_)
 BaseBodyRuns == AtEnd(BaseBodyRuns_)
+InheritRelativeToWriter == AtEnd(InheritRelativeToWriter_)
 AttrValues == AtEnd(AttrValues_)
 MemoSound == AtEnd(MemoSound_)
 BlockOnce == AtEnd(BlockOnce_)
